@@ -56,7 +56,7 @@ func c16One(op int, mask, f, a uint8) []string {
 
 func checkC16(c *Ctx) {
 	c.Level = "model_checking"
-	c.Rule = "complete enumeration: {GetFlag,SetFlag,ResetFlag} x 256 masks x 256 F x 256 A; SetU16/U16/Hi/Lo on all 65536 values; the unkeyed literal Register{hi, lo}; 8 flag constants. Non-trivial = the call must change or report something (mask&F != 0 for Get/Reset, mask&^F != 0 for Set), counted."
+	c.Rule = "complete enumeration: {GetFlag,SetFlag,ResetFlag} x 256 masks x 256 F x 256 A; SetU16/U16/Hi/Lo on all 65536 values; the unkeyed literal Register{hi, lo}; GetFlag on GPR/States/CPU values held in an interface and as a method value (snapshot); 8 flag constants. Non-trivial = the call must change or report something (mask&F != 0 for Get/Reset, mask&^F != 0 for Set), counted."
 	c.Bound = "complete space"
 	names := []string{"GetFlag", "SetFlag", "ResetFlag"}
 	var nontrivial [16]int64
@@ -117,6 +117,28 @@ func checkC16(c *Ctx) {
 		c.Nontrivial++
 		if r.Hi != 0x12 || r.Lo != 0x34 || r.U16() != 0x1234 {
 			c.Report("c16/register", 65536, "", c16Case{Op: "Register{0x12, 0x34}", V: 0x1234}, []string{fmt.Sprintf("the unkeyed literal z80.Register{0x12, 0x34} gives Hi=%02X Lo=%02X U16()=%04X: the declaration order of the two fields changed (Hi first, then Lo)", r.Hi, r.Lo, r.U16())})
+		}
+	}
+	// the accessors are methods of the VALUE types too: a GPR, States or CPU value stored in an interface (a
+	// template, a logger, a UI model) can be asked for a flag; and a method value taken from a value is a
+	// snapshot of that value
+	{
+		type getter interface{ GetFlag(z80.Flag) bool }
+		g := z80.GPR{AF: z80.Register{Hi: 0x12, Lo: 0x41}}
+		vals := map[string]interface{}{"GPR": g, "States": z80.States{GPR: g}, "CPU": z80.CPU{States: z80.States{GPR: g}}}
+		for name, v := range vals {
+			c.Evaluations++
+			c.Nontrivial++
+			gt, ok := v.(getter)
+			if !ok || !gt.GetFlag(z80.FlagZ) || gt.GetFlag(z80.FlagS) || !gt.GetFlag(z80.FlagS|z80.FlagC) {
+				c.Report("c16/flags", 1<<30, "", c16Case{Op: "GetFlag on a " + name + " value held in an interface"}, []string{fmt.Sprintf("a z80.%s VALUE held in an interface: has method GetFlag(Flag) bool: %v (the accessor moved to the pointer type, or answers wrongly there)", name, ok)})
+			}
+		}
+		before := g.GetFlag
+		g.AF.Lo = 0x00
+		c.Evaluations++
+		if !before(z80.FlagZ) {
+			c.Report("c16/flags", 1<<30+1, "", c16Case{Op: "method value g.GetFlag taken before F changed"}, []string{"the method value g.GetFlag, taken while F=41, reports Z clear after g.AF.Lo was set to 00: GetFlag no longer works on a copy of the value"})
 		}
 	}
 	// constants
